@@ -27,6 +27,27 @@ const l5SQL = "SELECT &Row.* FROM t WHERE a IN ($Ints[:]) OR b IN ($Strs[:])"
 // the same shapes on a statement without outputs (concurrent runs: every other Statement)
 const l5ExecSQL = "UPDATE t SET c = 0 WHERE a IN ($Ints[:]) OR b IN ($Strs[:])"
 
+// a bulk insert written with explicit members: its SQL has one tuple per row (concurrent
+// runs: the third Statement, when there are three)
+const l5BulkSQL = "INSERT INTO t (a, b) VALUES ($Row.a, $Row.b)"
+
+// l5Tag is what the shape means for a statement: the shape itself, or the number of tuples.
+func l5Tag(bulk bool, shape int) int {
+	if bulk {
+		return 1 + shape%4
+	}
+	return shape
+}
+
+// l5ArgsFor builds the arguments of a shape for a statement.
+func l5ArgsFor(bulk bool, shape int) []any {
+	if bulk {
+		return []any{make([]Row, 1+shape%4)}
+	}
+	ints, strs := l5Args(shape)
+	return []any{ints, strs}
+}
+
 // l5All runs the query to its end: GetAll for a statement with outputs, Run for one without.
 func l5All(q *sqlair.Query, noOut bool) error {
 	if noOut {
@@ -261,6 +282,9 @@ type l5Obs struct {
 // shapeOfSQL recovers the shape from the generated SQL: placeholders in the first and
 // in the second IN list.
 func shapeOfSQL(q string) int {
+	if strings.HasPrefix(q, "INSERT") {
+		return strings.Count(q, "), (") + 1
+	}
 	i := strings.Index(q, " OR b IN (")
 	if i < 0 {
 		return -1
@@ -538,6 +562,7 @@ func runL5Conc(r *rng.R, threads, perThread int) (obs *l5ConcObs) {
 	// the cache (C11: "for all histories ... over several Statements")
 	stmts := make([]*sqlair.Statement, nS)
 	noOut := map[*sqlair.Statement]bool{} // (read-only once the goroutines run)
+	bulk := map[*sqlair.Statement]bool{} // (the bulk insert; run like a statement without outputs)
 	par := r.Intn(2)
 	extra := make([]*sqlair.Statement, 16*16)
 	{
@@ -553,6 +578,9 @@ func runL5Conc(r *rng.R, threads, perThread int) (obs *l5ConcObs) {
 					if (g*16+k+par)%2 == 1 {
 						s, _ = sqlair.Prepare(l5ExecSQL, zoo.Ints{}, zoo.Strs{})
 					}
+					if g*16+k == 2 {
+						s, _ = sqlair.Prepare(l5BulkSQL, Row{})
+					}
 					extra[g*16+k] = s
 					if i := g*16 + k; i < nS {
 						stmts[i] = s
@@ -563,7 +591,8 @@ func runL5Conc(r *rng.R, threads, perThread int) (obs *l5ConcObs) {
 		close(startP)
 		wgp.Wait()
 		for i, s := range stmts {
-			noOut[s] = (i+par)%2 == 1
+			noOut[s] = (i+par)%2 == 1 || i == 2
+			bulk[s] = i == 2
 		}
 		seenID := map[uint64]bool{}
 		for _, s := range extra { // (the run's own Statements are the first of them)
@@ -735,24 +764,31 @@ func runL5Conc(r *rng.R, threads, perThread int) (obs *l5ConcObs) {
 								shape = 1 + tr.Intn(2)
 							}
 						}
-						ctx := context.WithValue(context.Background(), fakedrv.CtxKey{}, fmt.Sprintf("d%d-k%d-x%d", di+1, shape, txid))
-						ints, strs := l5Args(shape)
-						tq := tx.Query(ctx, s, ints, strs)
+						ctx := context.WithValue(context.Background(), fakedrv.CtxKey{}, fmt.Sprintf("d%d-k%d-x%d", di+1, l5Tag(bulk[s], shape), txid))
+						tq := tx.Query(ctx, s, l5ArgsFor(bulk[s], shape)...)
 						err := l5All(tq, noOut[s])
 						if err == nil && tr.Chance(1, 3) {
 							// the same Query object once more: still the transaction's
 							l5All(tq, noOut[s])
 						}
 						lastTQ, lastNoOut = tq, noOut[s]
+						if k == 0 && err == nil && !stress && tr.Chance(1, 8) {
+							// the transaction's connection is lost: what is issued through the
+							// transaction from now on fails, it does not run anywhere else
+							for _, e := range dbs[di].state.Events() {
+								if e.Kind == "begin" && e.Ctx == fmt.Sprintf("txB-%d", txid) {
+									dbs[di].state.KillConn(e.Conn)
+								}
+							}
+						}
 						if k == 0 && tr.Chance(1, 2) {
 							// the same shape on the DB in between: the pair's cache entry changes
 							// while the transaction is open
 							shape2 := tr.Pick9()
 							// (this needs a second connection while the transaction holds one: bounded
 							// by a deadline so that goroutines cannot wait for each other for ever)
-							c2, cancel2 := context.WithTimeout(context.WithValue(context.Background(), fakedrv.CtxKey{}, fmt.Sprintf("d%d-k%d", di+1, shape2)), 20*time.Millisecond)
-							i2, s2 := l5Args(shape2)
-							l5All(dbs[di].db.Query(c2, s, i2, s2), noOut[s])
+							c2, cancel2 := context.WithTimeout(context.WithValue(context.Background(), fakedrv.CtxKey{}, fmt.Sprintf("d%d-k%d", di+1, l5Tag(bulk[s], shape2))), 20*time.Millisecond)
+							l5All(dbs[di].db.Query(c2, s, l5ArgsFor(bulk[s], shape2)...), noOut[s])
 							cancel2()
 						}
 						mu.Lock()
@@ -781,7 +817,7 @@ func runL5Conc(r *rng.R, threads, perThread int) (obs *l5ConcObs) {
 					}
 					continue
 				}
-				ctx := context.WithValue(context.Background(), fakedrv.CtxKey{}, fmt.Sprintf("d%d-k%d", di+1, shape))
+				ctx := context.WithValue(context.Background(), fakedrv.CtxKey{}, fmt.Sprintf("d%d-k%d", di+1, l5Tag(bulk[s], shape)))
 				if !stress && tr.Chance(1, 12) {
 					// the context ends at the very moment the driver has prepared a statement (this
 					// call's, or whichever goroutine's Prepare comes next on this DB): whatever was
@@ -791,8 +827,7 @@ func runL5Conc(r *rng.R, threads, perThread int) (obs *l5ConcObs) {
 					defer cancelP()
 					dbs[di].state.CancelNext("prepare", cancelP)
 				}
-				ints, strs := l5Args(shape)
-				q := dbs[di].db.Query(ctx, s, ints, strs)
+				q := dbs[di].db.Query(ctx, s, l5ArgsFor(bulk[s], shape)...)
 				if !stress && tr.Chance(1, 4) {
 					runtime.GC()
 				}
